@@ -3,6 +3,7 @@ package main
 import (
 	"fmt"
 	"math/rand"
+	"net"
 	"strings"
 	"sync"
 	"time"
@@ -71,6 +72,7 @@ func c34Gen(rng *rand.Rand, tier string) []Case {
 		}
 	}
 	rec(nil)
+	out = append(out, Case{ID: "leave-during-join", Ops: []string{"leaveduringjoin"}, Nontrivial: true, Tags: []string{"directed"}})
 	out = append(out, Case{ID: "leave-stalled", Ops: []string{"leavestall"}, Nontrivial: true, Tags: []string{"directed"}})
 	out = append(out, Case{ID: "join-during-leave", Ops: []string{"joinduringleave"}, Nontrivial: true, Tags: []string{"directed"}})
 	for i := 0; i < nConc; i++ {
@@ -108,6 +110,51 @@ func c34JoinDuringLeave() string {
 	res := c34Call(n, "join")
 	<-done
 	return res + " " + n.S.State().String()
+}
+
+// c34LeaveDuringJoin: a Join to a peer that accepts the connection and never answers is in flight (it holds
+// joinLock); Leave is called, and 40 ms later a second Join.  The leave had begun before the second Join was
+// called, so that Join must be refused — whether or not the first Join has finished.
+func c34LeaveDuringJoin() string {
+	n, err := newTestNode(func(c *serf.Config) {
+		c.MemberlistConfig.TCPTimeout = 500 * time.Millisecond
+		c.BroadcastTimeout = 5 * time.Millisecond
+		c.LeavePropagateDelay = 3 * time.Millisecond
+	})
+	if err != nil {
+		return nodeErr(err)
+	}
+	defer n.Close()
+	ln, lerr := net.Listen("tcp", "127.0.0.1:0")
+	if lerr != nil {
+		return "env-error"
+	}
+	defer ln.Close()
+	accepted := make(chan net.Conn, 8)
+	go func() {
+		for {
+			c, err := ln.Accept()
+			if err != nil {
+				return
+			}
+			accepted <- c // held open, never answered
+		}
+	}()
+	j1 := make(chan struct{})
+	go func() { _, _ = n.S.Join([]string{"blackhole/" + ln.Addr().String()}, false); close(j1) }()
+	select {
+	case c := <-accepted:
+		defer c.Close()
+	case <-time.After(3 * time.Second):
+		return "env-error"
+	}
+	lres := make(chan string, 1)
+	go func() { lres <- c34Call(n, "leave") }()
+	time.Sleep(40 * time.Millisecond)
+	jr := c34Call(n, "join")
+	lr := <-lres
+	<-j1
+	return "leave:" + lr + ",join:" + jr + " " + n.S.State().String()
 }
 
 // c34LeaveStall: a node that knows a live peer and whose gossip is stalled (nothing leaves its broadcast queue)
@@ -217,6 +264,10 @@ func c34Exec(ops []string) []string {
 			outs = append(outs, "obs "+strings.Join(samples, ",")+"|"+strings.Join(results, ","))
 			continue
 		}
+		if len(f) == 1 && f[0] == "leaveduringjoin" {
+			outs = append(outs, c34LeaveDuringJoin())
+			continue
+		}
 		if len(f) == 1 && f[0] == "leavestall" {
 			outs = append(outs, c34LeaveStall())
 			continue
@@ -237,7 +288,7 @@ func c34Exec(ops []string) []string {
 func init() {
 	register(&Prop{
 		ID: "C34",
-		Rule: "a real single Serf node per case: every sequence of ≤3 (thorough ≤4) Leave/Shutdown/Join calls with State() read after each (exhaustive), plus free-running concurrent groups of 2-4 calls with a polling State() observer, a Join issued while a Leave is in progress, and a Leave whose broadcasts time out (live peer, stalled gossip) followed by a Join; " +
+		Rule: "a real single Serf node per case: every sequence of ≤3 (thorough ≤4) Leave/Shutdown/Join calls with State() read after each (exhaustive), plus free-running concurrent groups of 2-4 calls with a polling State() observer, a Join issued while a Leave is in progress, a Leave and then a Join issued while an earlier Join is still in flight, and a Leave whose broadcasts time out (live peer, stalled gossip) followed by a Join; " +
 			"non-trivial = at least two calls; distinct = distinct op sequence",
 		Gen:  c34Gen,
 		Exec: c34Exec,
